@@ -54,6 +54,8 @@ func InstallExtensions() {
 	soyjs.Funcs["vpush"] = soyjs.Func{Name: "vpush", Apply: func(js soyjs.JSWriter, args []ast.Node) {
 		js.Write("vpush(", args[0], ", ", args[1], ")")
 	}, ValidArgLengths: []int{2}}
+	SetMode("A")
+	soyjs.Funcs["vmode"] = soyjs.Func{Name: "vmode", Apply: func(js soyjs.JSWriter, args []ast.Node) { js.Write("vmode()") }, ValidArgLengths: []int{0}}
 	// vwrap:[a, b] wraps the value in the elements of its list argument
 	soyhtml.PrintDirectives["vwrap"] = soyhtml.PrintDirective{Apply: func(v data.Value, args []data.Value) data.Value {
 		out := v.String()
@@ -68,6 +70,13 @@ func InstallExtensions() {
 	soyjs.PrintDirectives["vfail"] = soyjs.PrintDirective{Name: "vfail"}
 	soyjs.PrintDirectives["vbang"] = soyjs.PrintDirective{Name: "vbang"}
 	soyjs.PrintDirectives["vq"] = soyjs.PrintDirective{Name: "vq", CancelAutoescape: true}
+}
+
+// SetMode re-registers the function vmode() so that it returns "mode-<m>": the application
+// replaces an entry of soyhtml.Funcs between renders (a new Func value each time, as reconfiguring
+// the registry does).
+func SetMode(m string) {
+	soyhtml.Funcs["vmode"] = soyhtml.Func{Apply: func([]data.Value) data.Value { return data.String("mode-" + m) }, ValidArgLengths: []int{0}}
 }
 
 // SetObligatory configures the obligatory print directives.
